@@ -65,4 +65,44 @@ PROPS = {
         "trusted_base": ["hand-written recognisers GGV.Model.Grammar (closed form of the six regexes' leftmost-first behaviour + capture post-processing), tied through the real ReadAllAnnotations / ReadIgnoreAnnotations",
                          "go/parser comment attachment, regexp (RE2)"],
     },
+    "C01": {
+        "theorems": T("C01", ["immutable_exact", "siteDiag_iff", "immFieldHit_iff", "immNode_eq_sites", "immutable_silent_reads", "immutable_silent", "immutable_receiver_rule"]) + ["GGV.Model.Prog.immDecl_eq"],
+        "suites": [("prog", {"focus": "IMM,ANN:IKM"})],
+        "assumptions": [
+            "programs are abstracted to APF: per declaration the preorder node list ast.Inspect visits, with go/types information attached; DeclShape (FuncDecl nodes only head func declarations) is go/ast's shape and is checked on every input (wf=ok)",
+            "supported fragment as stated by the property: non-generic defined types, direct imports; write / use forms the property does not list are neither required nor forbidden",
+        ],
+        "trusted_base": ["hand-written whole-program model GGV.Model.Prog (annotation reading, indices, walks, @ignore scopes, filters) of annotations/, indexing/, immutable/, constructor/, testonly/, packageonly/, ignore/, tied by the prog correspondence (real analyzers in-process vs model on generated + corpus modules)",
+                         "APF extractor (go/ast + go/types, independent of gogreement) as the abstraction function; go/types for type information"],
+    },
+    "C02": {
+        "theorems": T("C02", ["constructor_exact", "ctorNode_eq_sites", "ctorHit_iff", "constructor_silent_var", "constructor_silent_unannotated", "constructor_silent_inside", "constructor_foreign_name_not_exempt", "ctor_names_from_grammar"]) + ["GGV.Model.Prog.ctorDecl_eq"],
+        "suites": [("prog", {"focus": "CTOR,ANN:K"})],
+        "assumptions": [
+            "programs are abstracted to APF: per declaration the preorder node list ast.Inspect visits, with go/types information attached; DeclShape (FuncDecl nodes only head func declarations) is go/ast's shape and is checked on every input (wf=ok)",
+            "supported fragment as stated by the property: non-generic defined types, direct imports; write / use forms the property does not list are neither required nor forbidden",
+        ],
+        "trusted_base": ["hand-written whole-program model GGV.Model.Prog (annotation reading, indices, walks, @ignore scopes, filters) of annotations/, indexing/, immutable/, constructor/, testonly/, packageonly/, ignore/, tied by the prog correspondence (real analyzers in-process vs model on generated + corpus modules)",
+                         "APF extractor (go/ast + go/types, independent of gogreement) as the abstraction function; go/types for type information"],
+    },
+    "C03": {
+        "theorems": T("C03", ["testonly_exact", "tonlFile_eq", "tonlWalk_decl", "tonlNode_eq", "testonly_test_files_silent", "testonly_context_prune", "testonly_same_name_not_reported", "testonly_first_use"]) + ["GGV.Model.Prog.mem_runEvs"],
+        "suites": [("prog", {"focus": "TONL,ANN:T"})],
+        "assumptions": [
+            "programs are abstracted to APF: per declaration the preorder node list ast.Inspect visits, with go/types information attached; DeclShape (FuncDecl nodes only head func declarations) is go/ast's shape and is checked on every input (wf=ok)",
+            "supported fragment as stated by the property: non-generic defined types, direct imports; write / use forms the property does not list are neither required nor forbidden",
+        ] + ["a receiver of a @testonly type on a non-@testonly method is neither clearly a parameter nor clearly not one: the model reproduces the code (it is reported), the specification is stated over the model's event list"],
+        "trusted_base": ["hand-written whole-program model GGV.Model.Prog (annotation reading, indices, walks, @ignore scopes, filters) of annotations/, indexing/, immutable/, constructor/, testonly/, packageonly/, ignore/, tied by the prog correspondence (real analyzers in-process vs model on generated + corpus modules)",
+                         "APF extractor (go/ast + go/types, independent of gogreement) as the abstraction function; go/types for type information"],
+    },
+    "C04": {
+        "theorems": T("C04", ["packageonly_exact", "pkgoFile_eq", "pkgoNode_eq", "allow_union", "allowed_iff", "unannotated_silent", "declaring_always_allowed", "bare_only_D"]) + ["GGV.Model.Prog.mem_runEvs"],
+        "suites": [("prog", {"focus": "PKGO,ANN:P"})],
+        "assumptions": [
+            "programs are abstracted to APF: per declaration the preorder node list ast.Inspect visits, with go/types information attached; DeclShape (FuncDecl nodes only head func declarations) is go/ast's shape and is checked on every input (wf=ok)",
+            "supported fragment as stated by the property: non-generic defined types, direct imports; write / use forms the property does not list are neither required nor forbidden",
+        ],
+        "trusted_base": ["hand-written whole-program model GGV.Model.Prog (annotation reading, indices, walks, @ignore scopes, filters) of annotations/, indexing/, immutable/, constructor/, testonly/, packageonly/, ignore/, tied by the prog correspondence (real analyzers in-process vs model on generated + corpus modules)",
+                         "APF extractor (go/ast + go/types, independent of gogreement) as the abstraction function; go/types for type information"],
+    },
 }
